@@ -64,9 +64,12 @@ Full == Simple \cup {P(st) : st \in Simple} \cup GuardStmts \cup {ErrorStmt}
 Core == {st \in Simple : st.l1 \in {"a1", "lay", "$m", "$r", "bad", ""} /\ st.l2 \in {"", "b1", "lay", "good", "missing", "out", "str", "$b", "$c", "C1"}
                          /\ st.t1 # "ix" /\ st.op \notin {"image.manifest", "image.manifestHead", "image.manifestList", "image.copy+dt", "image.copy+fr"}}
         \cup {ErrorStmt}
-Throttle == {st \in Simple : st.op \in ThrottledOps /\ st.l1 \in {"a1", "bad"} /\ st.t1 \in {"v1", "ix", "none", ""} /\ st.l2 \in {"", "b1", "good", "missing", "out", "baddir"} /\ st.t2 \in {"", "new"}}
-            \cup {S("manifest.getList", "a1", "ix", "", ""), S("manifest.head", "a1", "v1", "", ""), S("image.config", "$m", "", "", ""),
-                  P(S("image.config", "$m", "", "", "")), ErrorStmt}
+\* the throttled bindings with their failure paths (before and while holding the slot) and what feeds them
+Throttle == {S("image.config", "a1", "v1", "", ""), S("image.config", "a1", "none", "", ""), S("image.config", "$m", "", "", ""),
+             P(S("image.config", "$m", "", "", "")), S("manifest.getList", "a1", "ix", "", ""), S("manifest.head", "a1", "v1", "", ""),
+             S("image.copy", "a1", "v1", "b1", "new"), S("image.copy", "a1", "none", "b1", "new"), S("image.copy", "bad", "", "b1", "new"),
+             S("image.importTar", "b1", "new", "good", ""), P(S("image.importTar", "b1", "new", "missing", "")),
+             S("image.exportTar", "a1", "v1", "out", ""), S("image.exportTar", "a1", "none", "baddir", ""), ErrorStmt}
 Alpha == CASE Alphabet = "full" -> Full [] Alphabet = "core" -> Core [] Alphabet = "throttle" -> Throttle
 
 MCInit == \E w \in {WorldA, WorldB}, m \in {"dry", "nor"}, p \in Pars : InitWith(w, m, p)
